@@ -3,8 +3,8 @@ import os
 from vlib.core import MachineryError
 
 FAMILIES_ALL = ["versions", "member_self", "member_restricted", "member_other", "member_tpi", "structure",
-                "generic", "create", "pl0", "pl1", "pl2"]
-FAMILIES_PL = ["versions", "pl0", "pl1", "pl2"]
+                "generic", "create", "pl0", "pl1", "pl2", "pl3"]
+FAMILIES_PL = ["versions", "pl0", "pl1", "pl2", "pl3"]
 
 INVS = "AcceptedImpliesNoEsc BannedNeverPasses NoCreateNoPass MixedNeverPass OnlyNeededState Emit"
 
